@@ -125,7 +125,16 @@ namespace nmtools::array
         template <typename output_t>
         constexpr auto operator()(output_t& output) const
         {
-            return this->eval_matmul(output);
+            using operands_t = meta::remove_cvref_t<decltype(get_array(view))>;
+            using lhs_t = meta::remove_cvref_t<decltype(nmtools::get<0>(meta::declval<operands_t>()))>;
+            // eval_matmul assumes lhs and output are stored row-major (rhs column-major is asserted inside)
+            if constexpr (!detail::simd_is_row_major<lhs_t>() || !detail::simd_is_row_major<output_t>()) {
+                auto fallback = evaluator_t<matmul_type,none_t,resolver_t>{view,None};
+                fallback(output);
+                return true;
+            } else {
+                return this->eval_matmul(output);
+            }
         }
 
         // TODO: provide common base/utility
